@@ -6,6 +6,8 @@ use std::sync::Mutex;
 static SERIAL: AtomicU64 = AtomicU64::new(0);
 static ACTIVE: AtomicU64 = AtomicU64::new(0);
 static CURRENT: Mutex<String> = Mutex::new(String::new());
+/// the case line to put on the case stream if the current evaluation never returns
+static DIVERGE_LINE: Mutex<String> = Mutex::new(String::new());
 
 pub fn start(limit_s: u64) {
     std::thread::spawn(move || {
@@ -17,6 +19,16 @@ pub fn start(limit_s: u64) {
             if a == 0 || a != last { last = a; since = std::time::Instant::now(); continue; }
             if since.elapsed().as_secs() >= limit_s {
                 let cur = CURRENT.lock().map(|s| s.clone()).unwrap_or_default();
+                let dl = DIVERGE_LINE.lock().map(|s| s.clone()).unwrap_or_default();
+                if !dl.is_empty() {
+                    // the main thread is stuck inside the evaluation and writes whole lines only
+                    // (stdout itself is locked by the main thread for the whole run: write through the descriptor)
+                    use std::io::Write;
+                    if let Ok(mut f) = std::fs::OpenOptions::new().append(true).open("/proc/self/fd/1") {
+                        let _ = writeln!(f, "{}", dl);
+                        let _ = f.flush();
+                    }
+                }
                 eprintln!("HARNESS_HANG {}", crate::util::hex(cur.as_bytes()));
                 std::process::exit(3);
             }
@@ -30,4 +42,13 @@ pub fn enter(what: &str) {
     ACTIVE.store(s, Ordering::SeqCst);
 }
 
-pub fn leave() { ACTIVE.store(0, Ordering::SeqCst); }
+/// like `enter`, and if the evaluation does not return, `line` is emitted as its case line
+pub fn enter_div(what: &str, line: String) {
+    if let Ok(mut d) = DIVERGE_LINE.lock() { *d = line; }
+    enter(what);
+}
+
+pub fn leave() {
+    ACTIVE.store(0, Ordering::SeqCst);
+    if let Ok(mut d) = DIVERGE_LINE.lock() { d.clear(); }
+}
